@@ -13,6 +13,7 @@ from .model import AnalysisError
 NEXT = ('next',)
 BREAK = ('break',)
 CONTINUE = ('continue',)
+BROKE = ('broke',)      # a for loop left through `break` (on_for -> st_For)
 
 
 class Raised:
@@ -65,6 +66,17 @@ class Interp:
         if m is None:
             self.unsupported('expression kind %s: %s' % (type(n).__name__, ast.unparse(n)[:60]), n)
         return m(n, st)
+
+    def ev_NamedExpr(self, n, st):
+        """(x := e): e is evaluated, bound to x, and is the value"""
+        outs = []
+        for v, s1 in self.ev(n.value, st):
+            if isinstance(v, Raised):
+                outs.append((v, s1))
+                continue
+            for s2 in self.assign(n.target, v, s1):
+                outs.append((v, s2))
+        return outs
 
     def truth(self, v, st):
         """-> [(bool, st)]"""
@@ -262,7 +274,16 @@ class Interp:
         return [st]
 
     def st_For(self, n, st):
-        return self.on_for(n, st)
+        # on_for reports a loop left through `break` as BROKE; the else clause runs on every other normal exit
+        outs = []
+        for out, s in self.on_for(n, st):
+            if out == BROKE:
+                outs.append((NEXT, s))
+            elif out == NEXT and n.orelse:
+                outs += self.block(n.orelse, s)
+            else:
+                outs.append((out, s))
+        return outs
 
     def st_Break(self, n, st):
         return [(BREAK, st)]
